@@ -29,6 +29,7 @@ def gen(rng, tier, idx):
     nthreads = r.randint(1, 3)
     streams = []
     uid = 0
+    unterminated = False
     for ti in range(nthreads):
         evs = []          # file order: [mcv, clock, payload_hex, jumbo_hex]
         t = r.below(50)
@@ -92,7 +93,10 @@ def gen(rng, tier, idx):
             t += 1
             evs.append(["OU[", t, "", None])
             evs.extend(kbuf)
-            evs.append(["OU]", t, "", None])
+            if mode == "raw" and r.chance(6):
+                unterminated = True     # the tracer died before closing its last region: this cannot be sorted
+            else:
+                evs.append(["OU]", t, "", None])
         if mode == "emu":
             t += 1
             evs.append(["OHe", t, "", None])
@@ -104,7 +108,7 @@ def gen(rng, tier, idx):
             dmax = max(dmax, d)
     nk = r.weighted([("default", 35), ("enough", 25), ("short", 15), ("small", 15), ("plenty", 10)])
     n = {"default": None, "enough": dmax + 2, "short": max(2, dmax + 1), "small": 2 + r.below(4), "plenty": dmax + 2 + r.below(50)}[nk]
-    return {"mode": mode, "streams": streams, "n": n, "nkind": nk}
+    return {"mode": mode, "streams": streams, "n": n, "nkind": nk, "unterminated": unterminated}
 
 
 def regions(evs):
@@ -156,6 +160,8 @@ def run(case, ctx):
         clocks = [e[1] for e in s["events"]]
         if clocks != sorted(clocks):
             moves = True
+    if case.get("unterminated"):
+        must_succeed = False        # a region that is never closed cannot be sorted: failing (and saying so) is the right answer
     nev = sum(len(s["events"]) for s in case["streams"])
     info = {"sim_ns": max([e[1] for s in case["streams"] for e in s["events"]] + [0]), "size": nev,
             "ihash": ihash(case["streams"]), "nontrivial": moves,
@@ -184,7 +190,7 @@ def run(case, ctx):
                               "every region is within the look-back window (n=%r) but ovnisort ended with %s%s" % (n, status, tail), **info)
             if not etxt.strip():
                 return result(False, "silent-failure", None, "ovnisort ended with %s without saying why%s" % (status, tail), **info)
-            info["probes"]["ovnisort refused (look-back too short)"] = 1
+            info["probes"]["ovnisort refused (look-back too short or region never closed)"] = 1
             return result(True, **info)
         info["probes"]["ovnisort succeeded"] = 1
         after = [open(os.path.join(tdir, s.relpath, "stream.obs"), "rb").read() for s in streams]
